@@ -12,7 +12,7 @@ import (
 
 func vhEnvQuick() vh.Env { return vh.Env{Seed: 1, Tier: "quick"} }
 
-// TestRaceRate measures how often ONE round of the concurrent engine exposes a defect (run it against a mutated
+// TestRaceRate measures how often ONE PAIR of rounds (fast + slow subscriber) of the concurrent engine exposes a defect (run it against a mutated
 // tree: VERIF_RACE_MEASURE=<trials>). Not part of the check.
 func TestRaceRate(t *testing.T) {
 	n, _ := strconv.Atoi(os.Getenv("VERIF_RACE_MEASURE"))
@@ -23,7 +23,7 @@ func TestRaceRate(t *testing.T) {
 	hitsInh, hitsSub, ms := 0, 0, int64(0)
 	for k := 0; k < n; k++ {
 		p := q
-		p.Seed, p.Rounds, p.BudgetMs = uint64(k+1), 1, 0
+		p.Seed, p.Rounds, p.BudgetMs = uint64(k+1), 2, 0 // one fast and one slow-subscriber round
 		if v, _ := strconv.Atoi(os.Getenv("VERIF_RACE_SLOW_EVERY")); v > 0 {
 			p.SlowEvery = v
 		}
@@ -45,5 +45,5 @@ func TestRaceRate(t *testing.T) {
 			hitsSub++
 		}
 	}
-	t.Logf("single-round hit rate: inhibitor %d / %d, subscriber %d / %d, %d ms per round", hitsInh, n, hitsSub, n, ms/int64(n))
+	t.Logf("hit rate per pair of rounds: inhibitor %d / %d, subscriber %d / %d, %d ms per pair", hitsInh, n, hitsSub, n, ms/int64(n))
 }
